@@ -31,3 +31,50 @@ Definition run_c09ab (l : list Z) : list Z :=
       [ Z.of_N (attackers b (Z.to_N sq) (occupancy b) c); Z.of_N (block b (Z.to_N sq) c) ]
   | _ => []
   end.
+
+(* stream "c09s" (session): board-in ++ [n; op_1 .. op_n] on ONE board that is played on
+     op < 65536   make op      op = 65536   make_null      op = 131072   undo the latest operation not yet undone
+     op = 196608 + q   a question asked at the node the walk stands on:
+                       q = 0  InCheck(side to move)      q = 1  InCheck(other side)
+                       q = 2  IsCheckmate (2 = not called: not in check)   q = 3  IsStalemate (2 = not called: in check)
+   output: per question  [q; P1..P6; C0; C1; stm; ep; castles; answer on the played board; answer on a fresh copy]
+   (the model has no hidden state: both answers are the answer of Model/Mate.v on the board after the
+   same operations; a panic of the implementation is reported as 9 and never matches) *)
+From Chess3 Require Import Model.SeqStreams.
+
+Definition op_query : Z := 196608.
+
+Definition c09s_answer (b : board) (q : Z) : Z :=
+  let chk := in_check b (stm b) in
+  if q =? 0 then (if chk then 1 else 0)
+  else if q =? 1 then (if in_check b (flip (stm b)) then 1 else 0)
+  else if q =? 2 then (if chk then (if is_checkmate b then 1 else 0) else 2)
+  else (if chk then 2 else (if is_stalemate b then 1 else 0)).
+
+Definition c09s_rec (b : board) (q : Z) : list Z :=
+  let a := c09s_answer b q in
+  q :: map Z.of_N (tl (pcs b)) ++ map Z.of_N (cols b) ++
+  [Z.of_N (cix (stm b)); Z.of_N (ep b); Z.of_N (castles b); a; a].
+
+Fixpoint c09s_ops (ops : list Z) (b : board) (st : list frame) (acc : list Z) : list Z :=
+  match ops with
+  | [] => acc
+  | o :: rest =>
+      if op_query <=? o then c09s_ops rest b st (acc ++ c09s_rec b (o - op_query))
+      else if o =? op_pop then
+        match st with
+        | f :: st' => c09s_ops rest (seq_undo b f) st' acc
+        | [] => c09s_ops rest b st acc
+        end
+      else if o =? op_null then
+        let '(b1, r) := make_null zob_real b in c09s_ops rest b1 ((None, r) :: st) acc
+      else
+        let m := Z.to_N o in
+        let '(b1, r) := make zob_real b m in c09s_ops rest b1 ((Some m, r) :: st) acc
+  end.
+
+Definition run_c09s (l : list Z) : list Z :=
+  match decode_board l with
+  | Some (b, n :: ops) => c09s_ops (firstn (Z.to_nat n) ops) b [] []
+  | _ => []
+  end.
